@@ -46,6 +46,35 @@ def corrupt_event(ev, rnd):
     return e
 
 
+def trace_selftest(ctx, module, events, rejected_lines, label, corrupt_ev):
+    """Binding demonstration for the trace direction (vlib only runs its own when nothing was rejected)."""
+    import json, random
+    rnd = random.Random(ctx.seed)
+    cand = [i for i, e in enumerate(events) if e.get('ev') == 'step' and (i + 1) not in rejected_lines]
+    rnd.shuffle(cand)
+    for i in cand[:50]:
+        ev2 = corrupt_ev(events[i], rnd)
+        if ev2 is None:
+            continue
+        lo = i
+        while lo > 0 and events[lo].get('ev') != 'reset':
+            lo -= 1
+        hi = i + 1
+        while hi < len(events) and events[hi].get('ev') != 'reset':
+            hi += 1
+        bad = ctx.path(f'bad_{label}.ndjson')
+        with open(bad, 'w') as f:
+            for j in range(lo, hi):
+                f.write(json.dumps(ev2 if j == i else events[j], separators=(',', ':')) + '\n')
+        rej = ctx._run_trace(module, module, bad, label + '-selftest', 600, False)
+        if not any(r['reject'] == i - lo + 1 for r in rej):
+            raise MachineryError(f'{label}: binding self-test failed: corrupted event {i + 1} was accepted')
+        ctx.cov.setdefault('selftest', []).append({'label': label, 'corrupted_event': i + 1, 'rejected': True})
+        ctx.log(f'{label}: binding self-test ok (corrupted event {i + 1} rejected)')
+        return
+    raise MachineryError(f'{label}: self-test could not corrupt any event')
+
+
 def gate(ctx, label):
     bad = {k: v for k, v in ctx.sig_counts.items() if k.startswith('SPEC-GATE')}
     if bad:
@@ -93,6 +122,10 @@ def run(ctx):
     rejects = ctx.validate_traces('Trace_Values', 'Trace_Values', 'trace.ndjson', label='trace-values', timeout=1500,
                                   corrupt_event=corrupt_event)
     names = {'sn': 'strnum', 'st': 'str', 'nm': 'num'}
+    if rejects:
+        import json
+        events = [json.loads(x) for x in open(ctx.path('trace.ndjson')) if x.strip()]
+        trace_selftest(ctx, 'Trace_Values', events, {r['line'] for r in rejects}, 'trace-values', corrupt_event)
     for r in rejects:
         ev = r['trace'][r['pos']]
         info = r['info']
